@@ -685,7 +685,7 @@ MATCHERS = {}
 
 TIERS = {
     "quick": {"runs": 16000, "chunk": 200, "budget_s": 60},
-    "thorough": {"runs": 1000000, "chunk": 500, "budget_s": 900},
+    "thorough": {"runs": 800000, "chunk": 500, "budget_s": 1500},
 }
 PROBES = [
     "overwrite",
